@@ -24,8 +24,10 @@ CLAIMS = {
             "PARTIAL proof. Proved: (a) a null move passes the turn, clears the ep target, keeps absolute placement and rights; (b) for every "
             "move -- quiet, capture, double push, en passant, promotion with/without capture (test premises_b) and castling written "
             "king-takes-rook in standard and Chess960 geometry (test cpremises_b) -- that passes refines_b = premises_b || cpremises_b, abs_state (makemove p m) = Rules.apply (abs_state p) (dec p m): placement, turn, four castling rights, ep target, "
-            "half-move clock, full-move number; (c) makemove is the composition of the stages the proof works on. refines_b is evaluated "
-            "(true) on every legal move the run generates. Open: that every legal move of D passes it, closure of D -- decided by the correspondence "
+            "half-move clock, full-move number; (c) makemove is the composition of the stages the proof works on; (d) NO per-move premise: on every position passing the "
+            "executable test good_pos_b, EVERY move the generator emits refines Rules.apply (GenSane: the generator block by block, 'allowed' "
+            "never contains our men). good_pos_b and refines_b are evaluated (true) on every position / legal move the run generates. "
+            "Open: closure of D (that the successor again passes good_pos_b) -- decided by the correspondence "
             "run (all fields, both key variants, Rules.apply, play-outs with null moves).", "DESIGN.md section 6 C02", ""),
     "C03": ("proof", "Coq lemmas on the root (answer = last pv, best move of the root loop is legal, ordering a permutation) + searches over limits/histories/tables checked against the rules",
             "PARTIAL proof. Proved on the model: the answer is the move of the last reported iteration; when the root loop ends with a best move it is a "
@@ -59,7 +61,8 @@ CLAIMS = {
             "(makemove p m) and hash (makemove true p m) = predict_hash p m for every move (quiet, capture, double push, en passant, promotion, "
             "castling in both geometries) that passes the executable test key_move_b, and the null-move step: the invariant 'stored key = "
             "recomputed key' is preserved step by step; (c) any 1..4 distinct entries of the regenerated key tables XOR to a non-zero value. "
-            "key_move_b is evaluated (true) on every legal move the run generates; that every legal move of D passes it, and the "
+            "Also with NO per-move premise: on every position passing good_pos_b every generated move keeps the invariant. good_pos_b / key_move_b are "
+            "evaluated (true) on every position / legal move the run generates; closure of D under moves, and the "
             "'different positions had different keys' clause, rest on the correspondence run.",
             "DESIGN.md section 6 C04", ""),
     "C05": ("proof", "Coq lemmas on the model of `moves`/`position` + differential against the token-denotation specification",
